@@ -1,8 +1,20 @@
 package main
 
+const worldRule = "rapid draws a Go world (module example.com/w, dependency packages from a colliding path grammar, source package with 1-4 interfaces over the full type grammar) and a moq command line (flags x destination x formatter x interface arguments x invocation style); distinct = distinct sha256 of (world files, command line); "
+
 func init() {
-	budgets["C01"] = budget{Harness: "static", Quick: 1600, Thorough: 24000, Level: "exploration",
-		Rule: "rapid draws a Go world (module, 0-4 dependency packages, source package with 1-3 interfaces) and a moq command line; non-trivial = moq accepted the case and (a non-default flag/destination/formatter/multi-argument is used, or the output imports a package other than sync, or the mock is generic); distinct = distinct sha256 of (world files, command line)"}
-	budgets["C19"] = budget{Harness: "static", Quick: 1600, Thorough: 24000, Level: "exploration",
-		Rule: "worlds with 2-6 dependency packages drawn from a colliding import-path grammar, 35% of command lines carry one hostile interface argument; non-trivial = the run took an error path (exit != 0) or the world has >=2 imported packages sharing a name / sanitised name / shadowing a std package; distinct by sha256 of the case"}
+	st := func(q, t int, rule string) budget {
+		return budget{Harness: "static", Quick: q, Thorough: t, Level: "exploration", Rule: worldRule + rule}
+	}
+	budgets["C01"] = st(1600, 24000, "non-trivial = moq accepted the case and (a non-default flag/destination/formatter/multi-argument is used, or the output imports a package other than sync, or the mock is generic)")
+	budgets["C02"] = st(1600, 20000, "non-trivial = a requested interface has >=2 methods, an embedded/aliased part or a variadic method")
+	budgets["C09"] = st(1600, 20000, "85% generic interfaces; non-trivial = a mock with >=1 non-any constraint for which the candidate pool contains >=1 accepted and >=1 rejected type-argument tuple")
+	budgets["C10"] = st(1600, 20000, "non-trivial = a non-implicit destination (-pkg given), or -skip-ensure with an interface that does not mention the source package")
+	budgets["C11"] = st(1600, 24000, "3-6 dependency packages from the colliding path grammar; non-trivial = the output imports >=2 packages sharing a package name or a sanitised base name, or a package the source file aliases")
+	budgets["C12"] = st(1600, 24000, "adversarial parameter-name pools; non-trivial = a generated method in which a numbered, a MoqParam/Out-suffixed or a package-named identifier occurs")
+	budgets["C13"] = st(1600, 16000, "adversarial names + unnamed parameters over the type grammar; non-trivial = an asserted parameter whose record field differs from plain first-letter capitalisation (initialism) or an asserted unnamed parameter of a non-basic type")
+	budgets["C14"] = st(480, 4000, "each case is executed 4 (thorough: 8) times as separate processes plus twice through the library in one child process; non-trivial = output with >=3 import specs, >=1 import alias or >=1 renamed parameter")
+	budgets["C16"] = st(800, 10000, "each case is generated under the default formatter, gofmt, noop and goimports; non-trivial = output importing both std and non-std packages or containing a line longer than 100 columns")
+	budgets["C19"] = st(1600, 24000, "35% of command lines carry one hostile interface argument; non-trivial = the run took an error path (exit != 0) or the world has >=2 imported packages sharing a name / sanitised name / shadowing a std package")
+	budgets["C20"] = st(960, 12000, "85% multi-argument command lines; every interface of a joint run is also generated alone; non-trivial = >=2 requested mocks whose solo outputs share >=1 imported package")
 }
